@@ -87,6 +87,11 @@ def bindLoopVariables(identifiers, value, environment, pos):
         environment.put(identifiers[i], vals[i] if i < len(vals) else NULL)
 
 
+# > 0 while the arguments of a failed call are rendered for its stack trace
+# line (rendering runs user code: an object's _str_ member)
+rendering_funcall = [0]
+
+
 def getFuncallString(fn, args):
     return f"{fn.name}({args.toStringAbbrev()})"
 
@@ -131,10 +136,19 @@ def invoke(fn, names_, args, environment, pos):
     except CklRuntimeError as e:
         # rendering the arguments runs user code (an object's _str_ member),
         # which must not replace the error that is being propagated
-        try:
-            call = getFuncallString(fn, args_)
-        except Exception:
+        if rendering_funcall[0] > 0:
+            # a call that fails while the arguments of another failed call
+            # are rendered: rendering again at every level of a deep
+            # recursion would take time exponential in its depth
             call = str(fn.name) + "(...)"
+        else:
+            rendering_funcall[0] += 1
+            try:
+                call = getFuncallString(fn, args_)
+            except Exception:
+                call = str(fn.name) + "(...)"
+            finally:
+                rendering_funcall[0] -= 1
         e.stacktrace.append(call + " " + str(pos))
         raise
 
